@@ -1,9 +1,241 @@
 package math32
 
+// Property C08, in-repo part for gonum.org/v1/gonum/internal/math32: every
+// exported function against the float64 math package definition rounded to
+// float32. Injected with go test -overlay.
+
 import (
+	"fmt"
+	"math"
 	"testing"
 
+	"pgregory.net/rapid"
 	"verifharness/vk"
 )
 
 func TestMain(m *testing.M) { vk.Main(m, "C08") }
+
+func vkOrd32(x float32) int64 {
+	b := math.Float32bits(x)
+	if b&0x80000000 != 0 {
+		return -int64(b & 0x7fffffff)
+	}
+	return int64(b)
+}
+
+// vkUlps32 is the distance of a and b in units in the last place of float32
+// (ordinal distance; +Inf is the successor of MaxFloat32). Large when either is NaN.
+func vkUlps32(a, b float32) int64 {
+	if a != a || b != b {
+		if a != a && b != b {
+			return 0
+		}
+		return math.MaxInt64
+	}
+	d := vkOrd32(a) - vkOrd32(b)
+	if d < 0 {
+		d = -d
+	}
+	return d
+}
+
+// hypotUlps is the acceptance bound of Hypot: the computed p*Sqrt(1+(q/p)^2)
+// carries five roundings; to first order the relative error is at most
+// t*3u/(1+t)/2 + u/2 + u + u <= 3.25u (t = (q/p)^2 <= 1), which is at most
+// 3.25 ulp, plus half an ulp for rounding the reference: 4 ulp.
+const vkHypotUlps = 4
+
+// ---- unary functions: exhaustive over blocks of 2^16 consecutive bit patterns ---
+
+type vkBlock struct{ Hi uint32 }
+
+func vkCheckBlock(c vkBlock) *vk.Failure {
+	vk.NonTrivial("math32-unary", c.Hi)
+	vk.Class("math32 unary block (65536 consecutive float32 bit patterns: Abs, Sqrt, Signbit, IsNaN, IsInf, Copysign)")
+	vk.Sample("math32-unary", c)
+	for lo := uint32(0); lo < 1<<16; lo++ {
+		b := (c.Hi&0xffff)<<16 | lo
+		x := math.Float32frombits(b)
+		x64 := float64(x)
+		if got, want := Abs(x), float32(math.Abs(x64)); !vk.SameBits32(got, want) {
+			return vk.Failf("Abs", "Abs(%v [%#x]) = %v [%#x], want %v", x, b, got, math.Float32bits(got), want)
+		}
+		// Sqrt: correctly rounded (rounding the float64 square root of a float32
+		// to float32 is innocuous double rounding: 53 >= 2*24+2)
+		if got, want := Sqrt(x), float32(math.Sqrt(x64)); !vk.SameBits32(got, want) {
+			return vk.Failf("Sqrt", "Sqrt(%v [%#x]) = %v [%#x], want %v [%#x]", x, b, got, math.Float32bits(got), want, math.Float32bits(want))
+		}
+		if got, want := Signbit(x), b>>31 != 0; got != want {
+			return vk.Failf("Signbit", "Signbit(%v [%#x]) = %v", x, b, got)
+		}
+		if got, want := IsNaN(x), math.IsNaN(x64); got != want {
+			return vk.Failf("IsNaN", "IsNaN(%v [%#x]) = %v", x, b, got)
+		}
+		for _, s := range [3]int{-1, 0, 1} {
+			if got, want := IsInf(x, s), math.IsInf(x64, s); got != want {
+				return vk.Failf("IsInf", "IsInf(%v [%#x], %d) = %v", x, b, s, got)
+			}
+		}
+		// Copysign: magnitude of the first, sign of the second argument, bit-wise
+		if got, want := Copysign(x, -1), math.Float32frombits(b|0x80000000); math.Float32bits(got) != math.Float32bits(want) {
+			return vk.Failf("Copysign", "Copysign(%v [%#x], -1) = %#x", x, b, math.Float32bits(got))
+		}
+		want25 := float32(2.5)
+		if b>>31 != 0 {
+			want25 = -2.5
+		}
+		if got := Copysign(2.5, x); got != want25 {
+			return vk.Failf("Copysign", "Copysign(2.5, %v [%#x]) = %v", x, b, got)
+		}
+	}
+	return nil
+}
+
+func TestVKUnary(t *testing.T) {
+	// thorough: every float32 bit pattern; quick: every 32nd block (rotating with
+	// the seed) plus the blocks around the special exponents
+	var his []uint32
+	if vk.Quick() {
+		off := uint32(vk.Seed() % 32)
+		for h := uint32(0); h < 1<<16; h++ {
+			e := (h >> 7) & 0xff
+			if h%32 == off || e == 0 || e == 0xff || e == 0xfe || e == 1 || e == 127 {
+				his = append(his, h)
+			}
+		}
+	} else {
+		for h := uint32(0); h < 1<<16; h++ {
+			his = append(his, h)
+		}
+	}
+	vk.Enumerate(t, "math32-unary", len(his), func(i int) vkBlock { return vkBlock{his[i]} }, vkCheckBlock)
+	vk.Enumerate(t, "math32-consts", 1, func(i int) vkBlock { return vkBlock{} }, func(vkBlock) *vk.Failure {
+		vk.Class("math32 Inf, NaN")
+		for _, s := range []int{math.MinInt, -5, -1, 0, 1, 7, math.MaxInt} {
+			if got, want := Inf(s), float32(math.Inf(s)); got != want {
+				return vk.Failf("Inf", "Inf(%d) = %v, want %v", s, got, want)
+			}
+		}
+		if n := NaN(); n == n || !IsNaN(n) || !math.IsNaN(float64(n)) {
+			return vk.Failf("NaN", "NaN() = %v is not a NaN", n)
+		}
+		return nil
+	})
+}
+
+// ---- binary functions -----------------------------------------------------------
+
+var vkSpecial32 = func() []float32 {
+	bits := []uint32{
+		0x00000000, 0x00000001, 0x00000002, 0x007fffff, 0x00800000, 0x00800001, 0x00ffffff, 0x01000000,
+		0x1e3ce508, 0x2edbe6ff, 0x33800000, 0x34000000, 0x3f000000, 0x3f7fffff, 0x3f800000, 0x3f800001, 0x3fb504f3, 0x3fc00000,
+		0x40000000, 0x40400000, 0x40800000, 0x40a00000, 0x4b800000, 0x5f000000, 0x5f3504f3, 0x5f800000, 0x60ad78ec, 0x7e800000,
+		0x7f000000, 0x7f3504f3, 0x7f3504f4, 0x7f7ffffe, 0x7f7fffff, 0x7f800000, 0x7fc00000, 0x7f800001, 0x7fffffff,
+	}
+	var out []float32
+	for _, b := range bits {
+		out = append(out, math.Float32frombits(b), math.Float32frombits(b|0x80000000))
+	}
+	return out
+}()
+
+func vkCheckPair(x, y float32) *vk.Failure {
+	x64, y64 := float64(x), float64(y)
+	desc := func() string {
+		return fmt.Sprintf("x=%v [%#x] y=%v [%#x]", x, math.Float32bits(x), y, math.Float32bits(y))
+	}
+	if got, want := Max(x, y), float32(math.Max(x64, y64)); !vk.SameBits32(got, want) {
+		return vk.Failf("Max", "Max = %v, want %v (%s)", got, want, desc())
+	}
+	if got, want := Min(x, y), float32(math.Min(x64, y64)); !vk.SameBits32(got, want) {
+		return vk.Failf("Min", "Min = %v, want %v (%s)", got, want, desc())
+	}
+	wantC := math.Float32frombits(math.Float32bits(x)&0x7fffffff | math.Float32bits(y)&0x80000000)
+	if got := Copysign(x, y); math.Float32bits(got) != math.Float32bits(wantC) {
+		return vk.Failf("Copysign", "Copysign = %v [%#x], want %v (%s)", got, math.Float32bits(got), wantC, desc())
+	}
+	if x == x && y == y {
+		if got, want := Copysign(x, y), float32(math.Copysign(x64, y64)); got != want || Signbit(got) != math.Signbit(float64(want)) {
+			return vk.Failf("Copysign", "Copysign = %v, want %v (%s)", got, want, desc())
+		}
+	}
+	// Hypot: documented special cases exactly, otherwise within vkHypotUlps of the
+	// float64 value rounded to float32; in particular no spurious overflow to
+	// +Inf and no spurious underflow to 0.
+	got := Hypot(x, y)
+	ref := math.Hypot(x64, y64)
+	want := float32(ref)
+	switch {
+	case math.IsInf(x64, 0) || math.IsInf(y64, 0):
+		if !IsInf(got, 1) {
+			return vk.Failf("Hypot-special", "Hypot = %v, want +Inf (%s)", got, desc())
+		}
+	case x != x || y != y:
+		if got == got {
+			return vk.Failf("Hypot-special", "Hypot = %v, want NaN (%s)", got, desc())
+		}
+	default:
+		if d := vkUlps32(got, want); d > vkHypotUlps || Signbit(got) {
+			return vk.Failf("Hypot", "Hypot = %v [%#x], float64 value %v rounds to %v [%#x]: %d ulp apart (bound %d) (%s)",
+				got, math.Float32bits(got), ref, want, math.Float32bits(want), d, vkHypotUlps, desc())
+		}
+		if got == 0 && ref != 0 && ref >= math.SmallestNonzeroFloat32 {
+			return vk.Failf("Hypot", "Hypot underflows to 0, value %v (%s)", ref, desc())
+		}
+	}
+	return nil
+}
+
+type vkPairs struct {
+	Mode int // 0: all pairs of the special values with index >= From; 1: random pairs
+	From int
+	Seed uint64
+}
+
+func vkCheckPairs(c vkPairs) *vk.Failure {
+	vk.Sample("math32-binary", c)
+	if c.Mode == 0 {
+		vk.Class("math32 binary: special value x all special values")
+		vk.NonTrivial("math32-special", c.From)
+		x := vkSpecial32[c.From%len(vkSpecial32)]
+		for _, y := range vkSpecial32 {
+			if f := vkCheckPair(x, y); f != nil {
+				return f
+			}
+		}
+		return nil
+	}
+	vk.Class("math32 binary: 512 random pairs (uniform bits / nearby exponents / special partner)")
+	vk.NonTrivial("math32-random", c.Seed)
+	r := vk.NewSplitMix(c.Seed)
+	for i := 0; i < 512; i++ {
+		x := math.Float32frombits(uint32(r.Uint64()))
+		var y float32
+		switch r.Intn(4) {
+		case 0:
+			y = math.Float32frombits(uint32(r.Uint64()))
+		case 1:
+			y = vkSpecial32[r.Intn(len(vkSpecial32))]
+		default:
+			// comparable magnitude: x scaled by 2^k(1+r), k in -13..13
+			y = float32(float64(x) * math.Ldexp(1+r.Float(), r.Intn(27)-13))
+			if r.Intn(2) == 0 {
+				y = -y
+			}
+		}
+		if r.Intn(2) == 0 {
+			x, y = y, x
+		}
+		if f := vkCheckPair(x, y); f != nil {
+			return f
+		}
+	}
+	return nil
+}
+
+func TestVKBinary(t *testing.T) {
+	vk.Enumerate(t, "math32-binary-special", len(vkSpecial32), func(i int) vkPairs { return vkPairs{Mode: 0, From: i} }, vkCheckPairs)
+	vk.Run(t, "math32-binary", vk.Opts{Quick: 6000, Thorough: 400000, NoCrumb: true}, func(t *rapid.T) vkPairs {
+		return vkPairs{Mode: 1, Seed: rapid.Uint64().Draw(t, "seed")}
+	}, vkCheckPairs)
+}
